@@ -28,7 +28,7 @@ impl Prop for C18 {
         "C18"
     }
     fn rule_text(&self) -> String {
-        "case = 1-3 virtual keys (payload key / layer-while-held / macro) operated through on-press, on-release (new and legacy fakekey syntax), a macro item, a sequence and TCP-style ActOnFakeKey ops; populations: 'state' (random press/release/tap/toggle operations, reference state down/up followed by the payload marker within 3 ms, whichever trigger is used), 'hold-for-duration' (D-1/D/D+1 re-arming, exact release tick, one press and one release), 'on-idle' (fires once, not before the idle time has accumulated since the last input - OS repeats of a held key or layer hold included -, not again until re-armed). non-trivial = the payload marker changed state at least once; distinct = config x history hash.".into()
+        "case = 1-3 virtual keys (payload key / layer-while-held / macro) operated through on-press, on-release (new and legacy fakekey syntax), a macro item, a sequence and TCP-style ActOnFakeKey ops; populations: 'state' (random press/release/tap/toggle operations, reference state down/up followed by the payload marker within 3 ms, whichever trigger is used), 'hold-for-duration' (D-1/D/D+1 re-arming, exact release tick, one press and one release), 'macro-collision' (a macro that presses a virtual key, types under it and releases it while another key operates a second virtual key at every offset: all four outputs of the macro and the other key's operation happen), 'on-idle' (fires once, not before the idle time has accumulated since the last input - OS repeats of a held key or layer hold included -, not again until re-armed). non-trivial = the payload marker changed state at least once; distinct = config x history hash.".into()
     }
     fn runs(&self, tier: Tier) -> u64 {
         match tier {
@@ -86,6 +86,44 @@ impl Prop for C18 {
             case.set("pop", "tcp-race");
             case.set("b_seed", r.next_u64());
             case.set("b_mode", *r.pick(&["jitter", "stall", "stall"]));
+            case.set("min_cfg", 0);
+            case.set("min_ops", 0);
+            case.set("min_gaps", 0);
+            return case;
+        }
+        if r.chance(100) {
+            // 'macro-collision' population: a macro presses, types under and releases a virtual key
+            // while another key operates a second virtual key, at every offset: a virtual-key step
+            // of the macro must take effect also when it falls into the tick of the other key's
+            // action (at most one custom event is delivered per tick)
+            // (delays of >= 4 ms: a step that has to wait one tick for the other key's event - the
+            // documented C08 known finding - still keeps its place in the order)
+            let (d1, d2, d3) = (r.range(4, 12), r.range(4, 12), r.range(4, 12));
+            let b_act = *r.pick(&["(on-press tap-vkey vk2)", "(on-press press-vkey vk2)", "(on-press toggle-vkey vk2)", "(multi (on-press press-vkey vk2) (on-release release-vkey vk2))"]);
+            case.cfg = format!(
+                "(defsrc a b)\n(defvirtualkeys vk1 lctl vk2 lalt)\n(deflayer l0 (macro {d1} (on-press press-vkey vk1) {d2} x {d3} (on-press release-vkey vk1)) {b_act})\n"
+            );
+            let (ka, kb) = (oscode_of("a"), oscode_of("b"));
+            let total = d1 + d2 + d3 + 8;
+            let off = r.range(0, total);
+            let mut ops = vec![Op::Gap(2), Op::Press(ka)];
+            if off > 0 {
+                ops.push(Op::Gap(off as u32));
+            }
+            ops.push(Op::Press(kb));
+            // the releases come long after the macro has ended, far apart from each other
+            ops.push(Op::Gap((total + 40) as u32));
+            ops.push(Op::Release(ka));
+            ops.push(Op::Gap(30));
+            ops.push(Op::Release(kb));
+            ops.push(Op::Gap(100));
+            if b_act.contains("press-vkey vk2)") && !b_act.contains("release-vkey") || b_act.contains("toggle") {
+                // let go of the latched second virtual key
+                ops.push(Op::Vkey("vk2".into(), 1));
+                ops.push(Op::Gap(50));
+            }
+            case.ops = ops;
+            case.set("pop", "macro-collision");
             case.set("min_cfg", 0);
             case.set("min_ops", 0);
             case.set("min_gaps", 0);
@@ -221,6 +259,44 @@ impl Prop for C18 {
         }
         if case.param("pop") == Some("tcp-race") {
             return check_tcp_race(case, want_sample);
+        }
+        if case.param("pop") == Some("macro-collision") {
+            let mut st = match Stepper::new_filtered(&case.cfg, &case.files, Mode::Ticking) {
+                Ok(s) => s,
+                Err(_) => return RunOut::skip("parser-rejected"),
+            };
+            st.run_ops(&case.ops);
+            st.gap(200);
+            st.finish();
+            let outs = st.trace.outs.clone();
+            let mut o = RunOut::pass();
+            o.sim_ms = st.trace.sim_ms;
+            o.count("pop.macro-collision", 1);
+            let mut sig = fnv(0, case.cfg.as_bytes());
+            for op in &case.ops {
+                sig = fnv(sig, op.short().as_bytes());
+            }
+            o.sig = sig;
+            o.nontrivial = !outs.is_empty();
+            // what the macro spells out, whatever the other key does meanwhile
+            let seq: Vec<String> = outs.iter().filter(|e| matches!(e.kind, OutKind::Press | OutKind::Release) && (e.key == "LCtrl" || e.key == "X")).map(|e| format!("{}{}", if e.kind == OutKind::Press { "↓" } else { "↑" }, e.key)).collect();
+            let want = vec!["↓LCtrl", "↓X", "↑X", "↑LCtrl"];
+            if seq != want {
+                o.set_fail("C18:vkey-step-of-macro-lost", format!("the macro presses vk1 (LCtrl), types x and releases vk1: expected {want:?}, got {seq:?}: {}", outs_short(&outs)), vec![]);
+            }
+            // the second virtual key was operated exactly once
+            let alt_p = outs.iter().filter(|e| e.kind == OutKind::Press && e.key == "LAlt").count();
+            if alt_p != 1 && !o.failed() {
+                o.set_fail("C18:vkey-operation-lost", format!("the other key operates vk2 (LAlt) once: {alt_p} presses of LAlt: {}", outs_short(&outs)), vec![]);
+            }
+            let d = st.down_set();
+            if !d.is_empty() && !o.failed() {
+                o.set_fail("C18:stuck-at-end", format!("still down: {:?}: {}", d.keys, outs_short(&outs)), vec![]);
+            }
+            if want_sample {
+                o.sample = Some(sample_json(case, &outs, json!({"pop": "macro-collision"})));
+            }
+            return o;
         }
         let mut st = match Stepper::new_filtered(&case.cfg, &case.files, Mode::Ticking) {
             Ok(s) => s,
